@@ -115,6 +115,27 @@ def tlc_mc(module, cfg, tag, workers=4, timeout=1500, simulate=None, extra=None,
     return res
 
 
+def tlapm(module, tag, timeout=900):
+    """Checks the proofs of spec/<module>.tla with the TLA+ proof system (SMT / Zenon / Isabelle back ends), from scratch.
+    Returns ok, obligations, failed."""
+    cache = workdir("tlaps", tag)
+    cmd = ["timeout", str(timeout), "tlapm", "--threads", "8", "--cleanfp", "--nofp", "--cache-dir", cache, "--toolbox", "0", "0", module + ".tla"]
+    t = time.time()
+    rc, out = sh(cmd, cwd=SPEC, timeout=timeout + 60)
+    res = {"module": module, "cfg": "tlapm", "rc": rc, "wall_s": round(time.time() - t, 1), "cmd": " ".join(cmd)}
+    m = re.search(r"All (\d+) obligations? proved", out)
+    f = re.search(r"(\d+)/(\d+) obligations? failed", out)
+    if m:
+        res.update(ok=True, obligations=int(m.group(1)), failed=0, generated=int(m.group(1)), distinct=int(m.group(1)))
+    elif f:
+        res.update(ok=False, obligations=int(f.group(2)), failed=int(f.group(1)), generated=int(f.group(2)), distinct=int(f.group(2)),
+                   error="%s of %s proof obligations failed\n%s" % (f.group(1), f.group(2), out[-1500:]))
+    else:
+        sys.stdout.write(out[-3000:])
+        raise ToolError("tlapm gave no verdict on %s (rc=%s)" % (module, rc))
+    return res
+
+
 def _unescape_tla(s):
     # TLC prints strings with \" and \\ escapes
     return re.sub(r'\\(.)', lambda m: {"n": "\n", "t": "\t"}.get(m.group(1), m.group(1)), s)
